@@ -3,11 +3,11 @@ package h
 import (
 	"errors"
 
-	"github.com/aws/aws-sdk-go/aws"
-	v1ddb "github.com/aws/aws-sdk-go/service/dynamodb"
 	v2aws "github.com/aws/aws-sdk-go-v2/aws"
 	v2ddb "github.com/aws/aws-sdk-go-v2/service/dynamodb"
 	v2types "github.com/aws/aws-sdk-go-v2/service/dynamodb/types"
+	"github.com/aws/aws-sdk-go/aws"
+	v1ddb "github.com/aws/aws-sdk-go/service/dynamodb"
 	mtypes "github.com/truora/minidyn/types"
 )
 
@@ -173,7 +173,7 @@ func keyOf(item Item) Item { return Item{"h": item["h"]} }
 
 // AliasProbe (SDK v1).
 func (b *V1) AliasProbe(c, t, kind string, item, item2 Item) *Resp {
-	return guard(func() *Resp {
+	return b.guard(func() *Resp {
 		cl := b.cs[c]
 		r := NewResp()
 		tn := aws.String(t)
@@ -322,7 +322,7 @@ func (b *V1) AliasProbe(c, t, kind string, item, item2 Item) *Resp {
 
 // AliasProbe (SDK v2).
 func (b *V2) AliasProbe(c, t, kind string, item, item2 Item) *Resp {
-	return guard(func() *Resp {
+	return b.guard(func() *Resp {
 		cl := b.cs[c]
 		r := NewResp()
 		tn := v2aws.String(t)
